@@ -353,7 +353,15 @@ class Evaluator:
             raise NotImplementedError(f"match pattern {type(p).__name__}")
         chain = None
         tail = None
+        cases = []
         for case in st.cases:
+            # `case P1 | P2: body` with captures is `case P1: body` followed by `case P2: body` (alternatives are tried in order)
+            if isinstance(case.pattern, ast.MatchOr):
+                for alt in case.pattern.patterns:
+                    cases.append(ast.match_case(pattern=alt, guard=case.guard, body=case.body))
+            else:
+                cases.append(case)
+        for case in cases:
             t, caps = pat(case.pattern, subj())
             body = [ast.Assign(targets=[ast.Name(id=n, ctx=ast.Store())], value=v) for n, v in caps] + list(case.body)
             if case.guard is not None:
@@ -509,6 +517,21 @@ class Evaluator:
         nt = self.namedtuple_items(val)
         if nt is not None:
             return nt
+        # zip / enumerate / reversed over sequences of statically known (equal) length
+        if isinstance(val, tuple) and val and val[0] == "call" and val[1][0] == "name" and not val[3]:
+            nm = val[1][1]
+            if nm == "builtins.zip" and val[2] and not any(a[0] == "star" for a in val[2]):
+                cols = [self.known_items(a) for a in val[2]]
+                if all(c is not None for c in cols) and len({len(c) for c in cols}) == 1:
+                    return [("tuple", tuple(c[i] for c in cols)) for i in range(len(cols[0]))]
+            if nm == "builtins.enumerate" and len(val[2]) == 1:
+                c = self.known_items(val[2][0])
+                if c is not None:
+                    return [("tuple", (C(i), x)) for i, x in enumerate(c)]
+            if nm == "builtins.reversed" and len(val[2]) == 1:
+                c = self.known_items(val[2][0])
+                if c is not None:
+                    return list(reversed(c))
         if isinstance(val, tuple) and val and val[0] in ("tuple", "list"):
             if any(isinstance(x, tuple) and x and x[0] == "star" for x in val[1]):
                 return None
@@ -955,6 +978,10 @@ class Evaluator:
                         a, b = dist(t[2]), dist(t[3])
                         if a == b and a[0] == "const":
                             return a
+                        if a == C(True) and b == C(False):
+                            return t[1]
+                        if a == C(False) and b == C(True):
+                            return ("unop", "not", t[1])
                         return ("ifexp", t[1], a, b)
                     q = ("cmp", p[1], t, p[3])
                     v = self.static_truth(q, fr)
@@ -970,7 +997,12 @@ class Evaluator:
             return self.expr(e.body, fr)
         if sv is False:
             return self.expr(e.orelse, fr)
-        return ("ifexp", c, self.expr(e.body, fr), self.expr(e.orelse, fr))
+        a, b = self.expr(e.body, fr), self.expr(e.orelse, fr)
+        if a == C(True) and b == C(False):
+            return c
+        if a == C(False) and b == C(True):
+            return ("unop", "not", c)
+        return ("ifexp", c, a, b)
 
     def e_Lambda(self, e, fr):
         cid = next(self._ids)
